@@ -101,7 +101,11 @@ fn match_rt(kind: u8, region: u8) -> Match {
         1 => assume(len < 34 + 128),
         2 => assume(len >= 34 + 128 && len < 34 + 32768),
         3 => assume(len >= 34 + 32768 && len < 34 + 32768 + (1u64 << 30)),
-        4 => assume(len >= 34 + 32768 + (1u64 << 30)),
+        // the top of the representable range (validate() refuses anything above 34+32768+2^30-1)
+        4 => assume(len >= 34 + 32768 + (1u64 << 30) - 4),
+        // narrow bands around the two format switches of the variable-length field
+        5 => assume(len >= 34 + 120 && len <= 34 + 136),
+        6 => assume(len >= 34 + 32760 && len <= 34 + 32900),
         _ => {}
     }
     let mut w = BitWriter::new();
@@ -139,7 +143,7 @@ macro_rules! match_rt_fam {
             unwind: $unwind,
             stubs: [alloc::fmt::format => crate::common::stubs::fmt_format],
             targets: "Match::validate, encode_match, encode_variable_length, BitWriter::{write_bits,finish,bits_written}, BitReader::{read_bits,bit_position}, decode_match, decode_variable_length",
-            bounds: "one Match of the given variant (args: wire type id 0..=7; length region 0=all, 1/2/3 = 8/17/32-bit form of the variable-length field, 4 = Far3Long offset beyond the 30-bit field), every field value passing validate()",
+            bounds: "one Match of the given variant (args: wire type id 0..=7; length region 0=all, 1/2/3 = 8/17/32-bit form of the variable-length field, 4 = top of the Far3Long range, 5/6 = bands around the 127/128 and 32767/32768 format switches), every field value passing validate()",
             oracle: "encode Ok; bits written == documented wire size; finish pads to a byte; decode_match returns the same Match and consumes exactly the bits written",
             body: { let m = match_rt($kind, $region); zcover!(true, "round trip completed"); forget(m); }
         }
@@ -153,6 +157,9 @@ match_rt_fam!(c02_match_rt_rle, quick, 5, 2, 0);
 match_rt_fam!(c02_match_rt_nearshort, quick, 5, 3, 0);
 match_rt_fam!(c02_match_rt_far1short, quick, 5, 4, 0);
 match_rt_fam!(c02_match_rt_far2short, quick, 5, 5, 0);
+match_rt_fam!(c02_match_rt_far2long_switch1, quick, 5, 6, 5);
+match_rt_fam!(c02_match_rt_far2long_switch2, quick, 5, 6, 6);
+match_rt_fam!(c02_match_rt_far3long_switch2, quick, 5, 7, 6);
 match_rt_fam!(c02_match_rt_far2long_v8, thorough, 5, 6, 1);
 match_rt_fam!(c02_match_rt_far2long_v17, thorough, 5, 6, 2);
 match_rt_fam!(c02_match_rt_far2long_v32, thorough, 5, 6, 3);
@@ -223,6 +230,9 @@ macro_rules! bitio_fam {
 bitio_fam!(c02_bitio_w32_0_7, quick, 6, false, 32, 0, 7);
 bitio_fam!(c02_bitio_w7_32_32, quick, 6, false, 7, 32, 32);
 bitio_fam!(c02_bitio_w3_5_13, quick, 6, false, 3, 5, 13);
+bitio_fam!(c02_bitio_w5_30_3, quick, 6, false, 5, 30, 3);
+bitio_fam!(c02_bitio_w7_31_1, quick, 6, false, 7, 31, 1);
+bitio_fam!(c02_bitio_w2_27_26, quick, 6, false, 2, 27, 26);
 zv_harness! {
     name: c02_bitio_wsym,
     prop: "C02",
